@@ -160,7 +160,7 @@ def exact_power_vanishes(A):
 def coqchk_extra(chk, pid):
     """thorough tier: the independent checker on a second properties file (lib's Check.coqchk is tied to chk.pid)"""
     import re
-    rc, out = lib.sh(["timeout", "2400", "coqchk", "-silent", "-o", "-Q", lib.COQ, "CE", f"CE.Properties.{pid}"], timeout=2500)
+    rc, out = lib.sh(["timeout", str(lib.COQCHK_TIMEOUT), "coqchk", "-silent", "-o", "-Q", lib.COQ, "CE", f"CE.Properties.{pid}"], timeout=lib.COQCHK_TIMEOUT + 100)
     axioms, sect, flags = [], None, {}
     for line in out.splitlines():
         m = re.match(r"^\* (.*?):\s*(.*)$", line.strip())
